@@ -33,6 +33,7 @@ type cfg struct {
 	gated    bool          // concurrency 1 and bodies that block until the end: value = starts + drops
 	slow     time.Duration // concurrency 1 and bodies that take this long (not a multiple of the interval): exact starts/drops from a reference simulation
 	stall    time.Duration // the rate function itself takes this long on its 2nd and 4th evaluation (a slow ticking goroutine)
+	limit    uint64        // max-iterations of the pool manager (0: none); bounds what a mis-sized request can start
 	few      int           // this many workers although the profile asks for more per tick (instant bodies: each worker runs several)
 }
 
@@ -74,7 +75,7 @@ func scenario(c cfg) vrt.Scenario {
 			}
 		}}
 		as := workers.NewActiveScenario(sc, m, x.stats, hlib.DiscardLogger(), hlib.DiscardLogrus())
-		mgr := workers.New(0, as)
+		mgr := workers.New(c.limit, as)
 		k := 0
 		rate := func(at time.Time) int {
 			v := c.profile[k%len(c.profile)]
@@ -251,7 +252,7 @@ func scenariosFor(tier string) []vrt.Scenario {
 	}
 	out = append(out, scenario(cfg{interval: 100 * ms, length: 250*ms + ms, profile: []int{2, 0, 1, 3}}).WithPlainPoints(b))
 	// negative values request nothing; values above the concurrency are requested in full (one worker runs several per tick)
-	for _, c := range []cfg{{interval: 100 * ms, length: 350 * ms, profile: []int{-3, 2, -1, 1}}, {interval: 100 * ms, length: 250 * ms, profile: []int{5, 3}, few: 2}} {
+	for _, c := range []cfg{{interval: 100 * ms, length: 350 * ms, profile: []int{-3, 2, -1, 1}, limit: 6}, {interval: 100 * ms, length: 250 * ms, profile: []int{5, 3}, few: 2}} {
 		s := scenario(c)
 		s.Bound = b
 		s.Delay = true
